@@ -29,6 +29,7 @@ type solverSpec struct {
 
 var solvers = []solverSpec{
 	{"z3-new", []string{"z3-new", "-smt2"}},
+	{"z3-new/ematch", []string{"z3-new", "-smt2", "auto_config=false", "smt.mbqi=false"}},
 	{"z3", []string{"z3", "-smt2"}},
 	{"cvc5", []string{"cvc5", "--lang=smt2", "--incremental"}},
 }
@@ -126,11 +127,41 @@ func (vc *VC) emit(o *Obl, dir string, idx int) (string, int, error) {
 	sort.Ints(di)
 	for _, i := range di {
 		d := vc.defs[i]
+		if d.Sort == "Bool" && strings.HasPrefix(d.Name, "pc") {
+			// path conditions occur only positively: an implication keeps assumed quantified facts in positive polarity
+			fmt.Fprintf(&b, "(assert (=> %s %s))\n", d.Name, d.Term)
+			continue
+		}
 		fmt.Fprintf(&b, "(assert (= %s %s))\n", d.Name, d.Term)
 	}
 	fmt.Fprintf(&b, "(assert %s)\n", o.PC)
 	if o.Expect != "sat" {
-		fmt.Fprintf(&b, "(assert (not %s))\n", o.Goal)
+		// positive universally quantified conjuncts of the goal are skolemised by hand, and every quantified spec formula in the
+		// context is instantiated at the skolem constants (and their neighbours): proofs of array invariants then need no
+		// quantifier instantiation by the solver at all.
+		goal, sks := vc.skolemizeGoal(o.Goal)
+		for _, sk := range sks {
+			fmt.Fprintf(&b, "(declare-const %s Int)\n", sk)
+		}
+		if len(sks) > 0 {
+			ctx := b.String()
+			n := 0
+			for _, q := range vc.quants {
+				if !strings.Contains(ctx, q.Text) && !strings.Contains(goal, q.Text) {
+					continue
+				}
+				for _, sk := range sks {
+					for _, t := range []string{sk, "(- " + sk + " 1)", "(+ " + sk + " 1)"} {
+						fmt.Fprintf(&b, "(assert (=> %s %s))\n", q.Text, substSym(q.Inner, q.BV, t))
+						n++
+					}
+				}
+				if n > 60 {
+					break
+				}
+			}
+		}
+		fmt.Fprintf(&b, "(assert (not %s))\n", goal)
 	}
 	b.WriteString("(check-sat)\n")
 	path := filepath.Join(dir, fmt.Sprintf("%03d_%s.smt2", idx, sanitize(o.Name)))
@@ -152,7 +183,7 @@ func builtinSym(s string) bool {
 func runSolver(ctx context.Context, sp solverSpec, file string, timeout time.Duration) (string, string, float64) {
 	args := append([]string{}, sp.Args[1:]...)
 	switch sp.Name {
-	case "z3", "z3-new":
+	case "z3", "z3-new", "z3-new/ematch":
 		args = append(args, fmt.Sprintf("-T:%d", int(timeout.Seconds())+1))
 	case "cvc5":
 		args = append(args, fmt.Sprintf("--tlimit=%d", timeout.Milliseconds()))
@@ -222,4 +253,86 @@ func firstLines(s string, n int) string {
 		ls = ls[:n]
 	}
 	return strings.Join(ls, "\n")
+}
+
+// skolemizeGoal replaces universally quantified spec formulas in positive position of the goal by instances at fresh constants.
+func (vc *VC) skolemizeGoal(goal string) (string, []string) {
+	var sks []string
+	var walk func(t string, pos bool) string
+	walk = func(t string, pos bool) string {
+		if !strings.HasPrefix(t, "(") {
+			return t
+		}
+		if pos {
+			for _, q := range vc.quants {
+				if t == q.Text {
+					sk := fmt.Sprintf("sk!%d", len(sks))
+					sks = append(sks, sk)
+					return walk(substSym(q.Inner, q.BV, sk), true)
+				}
+			}
+		}
+		parts := splitSexp(t)
+		if len(parts) == 0 {
+			return t
+		}
+		switch parts[0] {
+		case "and", "or":
+			for i := 1; i < len(parts); i++ {
+				parts[i] = walk(parts[i], pos)
+			}
+		case "=>":
+			for i := 1; i < len(parts)-1; i++ {
+				parts[i] = walk(parts[i], !pos)
+			}
+			parts[len(parts)-1] = walk(parts[len(parts)-1], pos)
+		case "not":
+			parts[1] = walk(parts[1], !pos)
+		default:
+			return t
+		}
+		return "(" + strings.Join(parts, " ") + ")"
+	}
+	g := walk(goal, true)
+	return g, sks
+}
+
+// splitSexp splits "(op a b ...)" into its top-level components.
+func splitSexp(t string) []string {
+	if len(t) < 2 || t[0] != '(' {
+		return nil
+	}
+	inner := t[1 : len(t)-1]
+	var out []string
+	depth := 0
+	start := -1
+	for i := 0; i < len(inner); i++ {
+		c := inner[i]
+		switch {
+		case c == '(':
+			if depth == 0 && start < 0 {
+				start = i
+			}
+			depth++
+		case c == ')':
+			depth--
+			if depth == 0 {
+				out = append(out, inner[start:i+1])
+				start = -1
+			}
+		case c == ' ':
+			if depth == 0 && start >= 0 {
+				out = append(out, inner[start:i])
+				start = -1
+			}
+		default:
+			if depth == 0 && start < 0 {
+				start = i
+			}
+		}
+	}
+	if start >= 0 {
+		out = append(out, inner[start:])
+	}
+	return out
 }
